@@ -75,6 +75,10 @@ type Trigger struct {
 	// AtStart: the trigger fires when the handler of the RPC starts (the change it belongs to is then in
 	// progress on the callee) instead of when it has answered
 	AtStart bool `json:"at_start,omitempty"`
+	// Serving (AtStart, Nth == 0): fire once, at the first RequestToJoin that reaches the member which will serve it
+	// itself (the ring successor of the joiner's identifier) while the ring has at least MinMembers members
+	Serving    bool `json:"serving,omitempty"`
+	MinMembers int  `json:"min_members,omitempty"`
 }
 
 type SchedSpec struct {
@@ -407,11 +411,10 @@ func GenPlan(prop string, seed uint64, tier string) *Plan {
 		// pile-up at one node: it serves a join slowly (the request thread sits at its lock sites), starts to
 		// leave in the middle of it, and its successor changes at the same time (so that its periodic tasks
 		// have something to write)
-		nth := 1 + r.Intn(5)
 		p.Sched.SlowMethod, p.Sched.SlowProb, p.Sched.SlowMax = "RequestToJoin", pick(r, 0.3, 0.6), pick(r, 300*time.Millisecond, 2*time.Second)
 		p.Triggers = append(p.Triggers,
-			Trigger{OnMethod: "RequestToJoin", Nth: nth, Target: "callee", Kind: "leave", AtStart: true, Delay: time.Duration(r.Int63n(int64(time.Second)))},
-			Trigger{OnMethod: "RequestToJoin", Nth: nth, Target: "succ-of-callee", Kind: pick(r, "leave", "join-before"), AtStart: true, Delay: time.Duration(r.Int63n(int64(time.Second))), Spare: 1 + r.Uint64()%1000})
+			Trigger{OnMethod: "RequestToJoin", Serving: true, MinMembers: 3, Target: "callee", Kind: "leave", AtStart: true, Delay: time.Duration(r.Int63n(int64(time.Second)))},
+			Trigger{OnMethod: "RequestToJoin", Serving: true, MinMembers: 3, Target: "succ-of-callee", Kind: pick(r, "leave", "join-before"), AtStart: true, Delay: time.Duration(r.Int63n(int64(time.Second))), Spare: 1 + r.Uint64()%1000})
 	}
 	if churn && r.Chance(0.35) {
 		// two changes that meet at the wrap-around pair: the member with the largest identifier starts to leave
